@@ -46,6 +46,11 @@ pub enum Native {
 	OwnedPoisR,
 	/// Poisonable around a fresh owned collection
 	PoisOwned(usize),
+	/// unchecked-at-runtime constructor over shared owned data `[Vec<RwLock>; 2]` whose listing order is the
+	/// REVERSE of its address order (the higher-addressed Vec is listed first)
+	VecsNew(Kind),
+	/// checked constructor over plain references to the locks of that same shared data
+	VecsRefs(Kind),
 	/// two distinct zero-sized members (empty owned collections): duplicate-free by identity
 	ZstPair(Kind),
 	/// zero-sized members around two references r_i, r_j: a duplicate iff i == j
@@ -81,7 +86,7 @@ impl Spec {
 		match self {
 			Spec::Coll(Kind::Retry, _) => true,
 			Spec::Pois(i) => i.retrying(),
-			Spec::Native(n) => matches!(n, Native::Arr3(Kind::Retry, _) | Native::TupMR(Kind::Retry, ..) | Native::Slice(Kind::Retry, _) | Native::NewOW(Kind::Retry, _) | Native::ZstPair(Kind::Retry) | Native::ZstAround(Kind::Retry, ..) | Native::RetryNewVec(_) | Native::RetryNewArr3 | Native::RetryOwnedR(_)),
+			Spec::Native(n) => matches!(n, Native::Arr3(Kind::Retry, _) | Native::TupMR(Kind::Retry, ..) | Native::Slice(Kind::Retry, _) | Native::NewOW(Kind::Retry, _) | Native::VecsNew(Kind::Retry) | Native::VecsRefs(Kind::Retry) | Native::ZstPair(Kind::Retry) | Native::ZstAround(Kind::Retry, ..) | Native::RetryNewVec(_) | Native::RetryNewArr3 | Native::RetryOwnedR(_)),
 			_ => false,
 		}
 	}
@@ -161,7 +166,7 @@ impl Spec {
 			Spec::Native(n) => {
 				let s = format!("{:?}", n);
 				s.split(|c| c == '(' || c == '[').next().unwrap().to_string() + &match n {
-					Native::Arr3(k, _) | Native::TupMR(k, ..) | Native::Slice(k, _) | Native::NewOW(k, _) | Native::ZstPair(k) | Native::ZstAround(k, ..) => format!("<{}>", k.short()),
+					Native::Arr3(k, _) | Native::TupMR(k, ..) | Native::Slice(k, _) | Native::NewOW(k, _) | Native::VecsNew(k) | Native::VecsRefs(k) | Native::ZstPair(k) | Native::ZstAround(k, ..) => format!("<{}>", k.short()),
 					_ => String::new(),
 				}
 			}
@@ -188,11 +193,13 @@ pub struct World<'w> {
 	pub is_rw: RefCell<Vec<bool>>,
 	pub unit: RefCell<Vec<u32>>,
 	pub next_unit: Cell<u32>,
+	/// shared owned data for the Vecs* native shapes: ([hi_vec, lo_vec], leaf ids of hi, leaf ids of lo)
+	pub vecs: RefCell<Option<(&'w [Vec<R>; 2], Vec<u32>, Vec<u32>)>>,
 }
 
 impl<'w> World<'w> {
 	pub fn new(arena: &'w Arena, store: &'w Store) -> Self {
-		World { arena, store, next_id: Cell::new(ARENA_TOTAL), is_rw: RefCell::new(Arena::is_rw_table()), unit: RefCell::new(Arena::unit_table()), next_unit: Cell::new(100) }
+		World { arena, store, next_id: Cell::new(ARENA_TOTAL), is_rw: RefCell::new(Arena::is_rw_table()), unit: RefCell::new(Arena::unit_table()), next_unit: Cell::new(100), vecs: RefCell::new(None) }
 	}
 	fn fresh(&self, rw: bool, unit: u32) -> u32 {
 		let id = self.next_id.get();
@@ -289,6 +296,37 @@ impl<'w> World<'w> {
 			},
 			_ => panic!("harness: {:?} unsupported as exclusive member", s),
 		})
+	}
+
+	/// Two separately heap-allocated Vecs of rwlocks, stored as `[hi, lo]`: the Vec whose locks have the higher
+	/// addresses is listed FIRST. Leaf ids are assigned in address order (lo's locks get the smaller ids).
+	fn shared_vecs(&self) -> (&'w [Vec<R>; 2], Vec<u32>, Vec<u32>) {
+		if let Some(v) = self.vecs.borrow().as_ref() {
+			return (v.0, v.1.clone(), v.2.clone());
+		}
+		// both Vecs have the same length, so the shape does not depend on which allocation ends up higher
+		let va: Vec<R> = vec![R::new(Payload::new(0)), R::new(Payload::new(0))];
+		let vb: Vec<R> = vec![R::new(Payload::new(0)), R::new(Payload::new(0))];
+		let pa = &va[0] as *const R as usize;
+		let pb = &vb[0] as *const R as usize;
+		let (mut hi, mut lo) = if pa > pb { (va, vb) } else { (vb, va) };
+		let mut lo_ids = vec![];
+		let mut hi_ids = vec![];
+		for (v, ids) in [(&mut lo, &mut lo_ids), (&mut hi, &mut hi_ids)] {
+			for r in v.iter_mut() {
+				let id = self.fresh(true, 0);
+				r.get_mut().leaf = id;
+				crate::rt::register_begin(id);
+				unsafe {
+					happylock::lockable::RawLock::raw_try_write(&*r);
+				}
+				crate::rt::register_end();
+				ids.push(id);
+			}
+		}
+		let data: &'w [Vec<R>; 2] = self.store.stash([hi, lo]);
+		*self.vecs.borrow_mut() = Some((data, hi_ids.clone(), lo_ids.clone()));
+		(data, hi_ids, lo_ids)
 	}
 
 	fn fresh_rs(&self, n: usize, unit: u32) -> (Vec<R>, Vec<u32>) {
@@ -449,6 +487,35 @@ impl<'w> World<'w> {
 					let b_ = self.fresh(true, u);
 					leaves = vec![a_, b_];
 					st.stash(OwnedLockCollection::new((Poisonable::new(reg_r(a_)), reg_r(b_))))
+				}
+				Native::VecsNew(k) => {
+					let (data, hi, lo) = self.shared_vecs();
+					leaves = hi.iter().chain(lo.iter()).copied().collect();
+					match k {
+						Kind::Boxed => st.stash(BoxedLockCollection::new_ref(data)),
+						Kind::Ref => st.stash(RefLockCollection::new(data)),
+						Kind::Retry => st.stash(RetryingLockCollection::new_ref(data)),
+					}
+				}
+				Native::VecsRefs(k) => {
+					let (data, hi, lo) = self.shared_vecs();
+					// listed as hi[0], lo[0], lo[1], ... , hi[1..]
+					let mut refs: Vec<&R> = vec![&data[0][0]];
+					leaves = vec![hi[0]];
+					for (i, r) in data[1].iter().enumerate() {
+						refs.push(r);
+						leaves.push(lo[i]);
+					}
+					for (i, r) in data[0].iter().enumerate().skip(1) {
+						refs.push(r);
+						leaves.push(hi[i]);
+					}
+					let b: Box<[&R]> = refs.into_boxed_slice();
+					match k {
+						Kind::Boxed => st.stash(BoxedLockCollection::try_new(b)?),
+						Kind::Ref => st.stash(RefLockCollection::try_new(st.stash(b))?),
+						Kind::Retry => st.stash(RetryingLockCollection::try_new(b)?),
+					}
 				}
 				Native::ZstPair(k) => {
 					let arr: [OwnedLockCollection<[R; 0]>; 2] = [OwnedLockCollection::new([]), OwnedLockCollection::new([])];
